@@ -56,64 +56,69 @@ func runC04(c *pure.Ctx) {
 					for _, nb := range nbs {
 						for _, k := range caps {
 							for _, st := range starts {
-								if c.Expired() {
-									return
-								}
-								p := Pop{Name: "c04", K: k, Downtime: dt, StartMs: st, JCs: []JC{
-									{Name: "a", Exprs: []string{ex.e}, TZ: ex.tz, LastScheduled: ls, LastUpdated: lu, NotBefore: nb},
-									{Name: "fresh", Exprs: []string{ex.e}, TZ: ex.tz},
-								}}
-								desc := fmt.Sprintf("expr=%q tz=%q lastScheduled=%s lastUpdated=%s notBefore=%s downtime=%d cap=%d startMs=%d", ex.e, ex.tz, offs(ls), offs(lu), offs(nb), dt, k, st)
-								h := NewHarness(p, true)
-								c.Eval()
-								if h.InitErr != nil {
-									c.Violate("init-failed", desc+": "+h.InitErr.Error())
-									continue
-								}
-								r := NewRef(p, h.T0, h.T0)
-								// Lower bound of the persisted JobConfig.
-								if ls != nil {
-									cur := h.T0.Add(time.Duration(*ls) * time.Second).Truncate(time.Second) // as stored by the API
+								for _, early := range []int{0, 3600} {
+									if early > 0 && st != 0 {
+										continue // the standby variant once per combination
+									}
+									if c.Expired() {
+										return
+									}
+									p := Pop{Name: "c04", K: k, Downtime: dt, StartMs: st, ConstructEarlyS: early, JCs: []JC{
+										{Name: "a", Exprs: []string{ex.e}, TZ: ex.tz, LastScheduled: ls, LastUpdated: lu, NotBefore: nb},
+										{Name: "fresh", Exprs: []string{ex.e}, TZ: ex.tz},
+									}}
+									desc := fmt.Sprintf("expr=%q tz=%q lastScheduled=%s lastUpdated=%s notBefore=%s downtime=%d cap=%d startMs=%d constructedEarlier=%ds", ex.e, ex.tz, offs(ls), offs(lu), offs(nb), dt, k, st, early)
+									h := NewHarness(p, true)
+									c.Eval()
+									if h.InitErr != nil {
+										c.Violate("init-failed", desc+": "+h.InitErr.Error())
+										continue
+									}
+									r := NewRef(p, h.T0, h.T0)
+									// Lower bound of the persisted JobConfig.
+									if ls != nil {
+										cur := h.T0.Add(time.Duration(*ls) * time.Second).Truncate(time.Second) // as stored by the API
 
-									if floor := h.T0.Add(-time.Duration(d) * time.Second); cur.Before(floor) {
-										cur = floor
+										if floor := h.T0.Add(-time.Duration(d) * time.Second); cur.Before(floor) {
+											cur = floor
+										}
+										r.JCs["a"].cursor = cur
 									}
-									r.JCs["a"].cursor = cur
-								}
-								if lu != nil {
-									if t := h.T0.Add(time.Duration(*lu) * time.Second).Truncate(time.Second); t.After(r.JCs["a"].cursor) {
-										r.JCs["a"].cursor = t
+									if lu != nil {
+										if t := h.T0.Add(time.Duration(*lu) * time.Second).Truncate(time.Second); t.After(r.JCs["a"].cursor) {
+											r.JCs["a"].cursor = t
+										}
 									}
-								}
-								nontrivial := false
-								var trace []string
-								for _, dt := range ticks {
-									got := h.Tick(dt)
-									trace = append(trace, dt.String())
-									c.Count("ticks")
-									for _, e := range got {
-										if e.JC == "a" {
-											nontrivial = true
-											if ls != nil && !e.T.After(h.T0.Add(time.Duration(*ls)*time.Second).Truncate(time.Second)) {
-												c.Violate("rescheduled-at-or-before-last", fmt.Sprintf("%s: requested %s which is not after lastScheduled", desc, rel(e.T)))
+									nontrivial := false
+									var trace []string
+									for _, dt := range ticks {
+										got := h.Tick(dt)
+										trace = append(trace, dt.String())
+										c.Count("ticks")
+										for _, e := range got {
+											if e.JC == "a" {
+												nontrivial = true
+												if ls != nil && !e.T.After(h.T0.Add(time.Duration(*ls)*time.Second).Truncate(time.Second)) {
+													c.Violate("rescheduled-at-or-before-last", fmt.Sprintf("%s: requested %s which is not after lastScheduled", desc, rel(e.T)))
+												}
+											}
+											if e.JC == "fresh" && e.T.Before(h.T0) {
+												c.Violate("never-scheduled-back-scheduled", fmt.Sprintf("%s: never scheduled JobConfig requested for %s (start %s)", desc, rel(e.T), rel(h.T0)))
 											}
 										}
-										if e.JC == "fresh" && e.T.Before(h.T0) {
-											c.Violate("never-scheduled-back-scheduled", fmt.Sprintf("%s: never scheduled JobConfig requested for %s (start %s)", desc, rel(e.T), rel(h.T0)))
+										if msg := r.CheckTick(h.Now(), got); msg != "" {
+											c.Violate("catchup-stream", fmt.Sprintf("%s ticks %v: %s", desc, trace, msg))
+											break
+										}
+										if msg := h.CheckHeap(r, 500*24*time.Hour); msg != "" {
+											c.Violate("catchup-heap", fmt.Sprintf("%s ticks %v: %s", desc, trace, msg))
+											break
 										}
 									}
-									if msg := r.CheckTick(h.Now(), got); msg != "" {
-										c.Violate("catchup-stream", fmt.Sprintf("%s ticks %v: %s", desc, trace, msg))
-										break
+									if nontrivial {
+										c.Nontrivial(desc)
+										c.Sample(map[string]interface{}{"case": desc, "requests": fmt.Sprintf("%v", h.Out)})
 									}
-									if msg := h.CheckHeap(r, 500*24*time.Hour); msg != "" {
-										c.Violate("catchup-heap", fmt.Sprintf("%s ticks %v: %s", desc, trace, msg))
-										break
-									}
-								}
-								if nontrivial {
-									c.Nontrivial(desc)
-									c.Sample(map[string]interface{}{"case": desc, "requests": fmt.Sprintf("%v", h.Out)})
 								}
 							}
 						}
